@@ -29,9 +29,12 @@ RECURSIVE Asc(_, _)
 Asc(lo, n) == IF n = 0 THEN {<<>>}
               ELSE UNION {{<<a>> \o rest : rest \in Asc(AtomMax(a) + 1, n - 1)} :
                             a \in {x \in FwdAtoms : x.a >= lo}}
-PlusLists == UNION {{Mk("plus", 0, 0, its) : its \in Asc(0, n)} : n \in 2..MaxItems}
+\* the quantifier's '+' lists are ascending; the scanner also accepts the same operands in any order
+\* (the denotation is a union), which is checked as an extension
+Reorder(its) == {[i \in 1..Len(its) |-> its[p[i]]] : p \in Permutations(1..Len(its))}
+PlusLists == UNION {UNION {{Mk("plus", 0, 0, r) : r \in Reorder(its)} : its \in Asc(0, n)} : n \in 2..MaxItems}
 Scans == {Mk("all", 0, 0, <<>>)} \cup {Mk("from", a, 0, <<>>) : a \in B} \cup Atoms
-         \cup {s \in PlusLists : WFPlus(s)}
+         \cup PlusLists
 
 N == Len(case.blanks)
 FileOf(bl) == [i \in 1..Len(bl) |-> IF bl[i] THEN <<>> ELSE <<"x">>]   \* only blankness matters here
